@@ -44,7 +44,7 @@ every index of `m.indices` lies inside `prev`, `next`, `weights`, `vehicleRates`
 compute just before `Cost::enforce_strictly_positive`.
 -/
 import Compass.Gen.Decisions
-import Compass.Gen.Fns
+import Compass.Gen.FnsC07
 import Compass.Proofs.Num
 import Compass.Model.Cost
 import Compass.Proofs.Cost
@@ -1670,7 +1670,7 @@ theorem src_cost_non_negative {α : Type} [Field α] [LinearOrder α] [IsStrictO
 
 /-! ### Generated function bodies
 
-`tools/gen_fns.py` re-translates the body of the Rust function on every run into `Compass/Gen/Fns.lean`
+`tools/gen_fns.py` re-translates the body of the Rust function on every run into `Compass/Gen/FnsC07.lean`
 (`Gen.<Type>_<fn>`; conventions in the header of the tool).  Each `gen_*_eq` theorem below says that the
 generated definition *is* the hand-written model function the property theorems are about.  A source
 change to the function changes the generated definition and the proof stops checking (a body the
